@@ -45,6 +45,19 @@ Ltac byten :=
   rewrite ?byte_eqb_n in *;
   cbn [b2n Byte.to_N] in *.
 
+(* evaluate byte tests on concrete bytes (leaves tests on variables alone) *)
+Ltac beq_compute :=
+  repeat match goal with
+  | |- context [byte_eqb ?a ?b] =>
+      let v := eval vm_compute in (byte_eqb a b) in
+      match v with true => idtac | false => idtac end;
+      change (byte_eqb a b) with v
+  | |- context [is_ctrl ?a] =>
+      let v := eval vm_compute in (is_ctrl a) in
+      match v with true => idtac | false => idtac end;
+      change (is_ctrl a) with v
+  end.
+
 (* ---- byte classes ----------------------------------------------------------------------- *)
 Lemma plain_basic b : plain b = true -> in_class BASIC_UNESCAPED b = true.
 Proof. pose proof (b2n_lt b). byten. lia. Qed.
@@ -133,3 +146,123 @@ Qed.
 Lemma utf8_split a b c : (b2n b <= 127)%N -> utf8_valid_b (a ++ b :: c) = true ->
   utf8_valid_b a = true /\ utf8_valid_b c = true.
 Proof. apply (utf8_split_n (length a)). lia. Qed.
+
+(* ---- span_while --------------------------------------------------------------------------- *)
+Definition stops (f : byte -> bool) (r : bytes) : Prop :=
+  match r with [] => True | b :: _ => f b = false end.
+
+Lemma span_while_exact f a r : forallb f a = true -> stops f r -> span_while f (a ++ r) = (a, r).
+Proof.
+  induction a as [|x a IH]; intros Ha Hr.
+  - simpl app. destruct r as [|b r]; [reflexivity|]. simpl in Hr. simpl. rewrite Hr. reflexivity.
+  - simpl in Ha. apply andb_true_iff in Ha as [Hx Ha]. simpl. rewrite Hx. rewrite (IH Ha Hr). reflexivity.
+Qed.
+
+Lemma span_while_split f s : exists a r, s = a ++ r /\ forallb f a = true /\ stops f r.
+Proof.
+  exists (fst (span_while f s)), (snd (span_while f s)).
+  split; [symmetry; apply span_while_app|split; [apply span_while_all|]].
+  pose proof (span_while_stop f s) as H. unfold stops. destruct (snd (span_while f s)); exact H.
+Qed.
+
+Lemma skipn_app_len {A} (a r : list A) : skipn (length a) (a ++ r) = r.
+Proof. induction a; simpl; auto. Qed.
+Lemma firstn_app_len {A} (a r : list A) : firstn (length a) (a ++ r) = a.
+Proof. induction a; simpl; congruence. Qed.
+
+(* ---- inputs -------------------------------------------------------------------------------- *)
+Lemma advance_app a r p d : advance (length a) (mkIn (a ++ r) p d) = after a r p d.
+Proof. unfold advance, after. cbn [rest pos depth]. rewrite skipn_app_len. reflexivity. Qed.
+
+Lemma after_nil r p d : after [] r p d = mkIn r p d.
+Proof. unfold after. cbn [length]. f_equal. lia. Qed.
+
+Lemma after_after t1 t2 r p d : after t2 r (p + N.of_nat (length t1)) d = after (t1 ++ t2) r p d.
+Proof. unfold after. f_equal. rewrite app_length. lia. Qed.
+
+Lemma mkIn_eq r r' p p' d : r = r' -> p = p' -> mkIn r p d = mkIn r' p' d.
+Proof. intros; subst; reflexivity. Qed.
+
+(* prove an equality between two inputs that differ only in how the position is written *)
+Ltac inp :=
+  unfold after; apply mkIn_eq;
+  [ repeat (rewrite <- ?app_assoc; cbn [app]); try reflexivity
+  | repeat rewrite app_length; cbn [length]; lia ].
+
+Lemma ok_inp {A} (a a' : A) i i' : a = a' -> i = i' -> Ok a i = Ok a' i'.
+Proof. intros; subst; reflexivity. Qed.
+
+(* ---- sequencing ------------------------------------------------------------------------------ *)
+Lemma bind_ok {A B} (p : parser A) (f : A -> parser B) i a i' :
+  p i = Ok a i' -> bind p f i = f a i'.
+Proof. intro H. unfold bind. rewrite H. reflexivity. Qed.
+Lemma bind_bt {A B} (p : parser A) (f : A -> parser B) i e i' :
+  p i = Bt e i' -> bind p f i = Bt e i'.
+Proof. intro H. unfold bind. rewrite H. reflexivity. Qed.
+Lemma alt_ok {A} (p q : parser A) i a i' : p i = Ok a i' -> alt p q i = Ok a i'.
+Proof. intro H. unfold alt. rewrite H. reflexivity. Qed.
+Lemma alt_bt {A} (p q : parser A) i e i' : p i = Bt e i' -> alt p q i = q i.
+Proof. intro H. unfold alt. rewrite H. reflexivity. Qed.
+Lemma opt_ok {A} (p : parser A) i a i' : p i = Ok a i' -> opt p i = Ok (Some a) i'.
+Proof. intro H. unfold opt. rewrite H. reflexivity. Qed.
+Lemma opt_bt {A} (p : parser A) i e i' : p i = Bt e i' -> opt p i = Ok None i.
+Proof. intro H. unfold opt. rewrite H. reflexivity. Qed.
+Lemma pmap_ok {A B} (f : A -> B) (p : parser A) i a i' : p i = Ok a i' -> pmap f p i = Ok (f a) i'.
+Proof. intro H. unfold pmap. rewrite H. reflexivity. Qed.
+Lemma pmap_bt {A B} (f : A -> B) (p : parser A) i e i' : p i = Bt e i' -> pmap f p i = Bt e i'.
+Proof. intro H. unfold pmap. rewrite H. reflexivity. Qed.
+Lemma cut_err_ok {A} (p : parser A) i a i' : p i = Ok a i' -> cut_err p i = Ok a i'.
+Proof. intro H. unfold cut_err. rewrite H. reflexivity. Qed.
+Lemma context_ok {A} (p : parser A) i a i' : p i = Ok a i' -> context p i = Ok a i'.
+Proof. intro H. unfold context. rewrite H. reflexivity. Qed.
+Lemma peek_ok {A} (p : parser A) i a i' : p i = Ok a i' -> peek p i = Ok a i.
+Proof. intro H. unfold peek. rewrite H. reflexivity. Qed.
+Lemma peek_bt {A} (p : parser A) i e i' : p i = Bt e i' -> peek p i = Bt e i.
+Proof. intro H. unfold peek. rewrite H. reflexivity. Qed.
+
+(* ---- primitives -------------------------------------------------------------------------------- *)
+Lemma any_cons b r p d : any (mkIn (b :: r) p d) = Ok b (mkIn r (p + 1)%N d).
+Proof. reflexivity. Qed.
+Lemma any_nil p d : any (mkIn [] p d) = Bt err0 (mkIn [] p d).
+Proof. reflexivity. Qed.
+Lemma one_of_cons f b r p d :
+  one_of f (mkIn (b :: r) p d) = if f b then Ok b (mkIn r (p + 1)%N d) else Bt err0 (mkIn (b :: r) p d).
+Proof. reflexivity. Qed.
+Lemma one_of_yes f b r p d : f b = true -> one_of f (mkIn (b :: r) p d) = Ok b (mkIn r (p + 1)%N d).
+Proof. intro H. rewrite one_of_cons, H. reflexivity. Qed.
+Lemma one_of_no f r p d : stops f r -> one_of f (mkIn r p d) = Bt err0 (mkIn r p d).
+Proof. destruct r as [|b r]; [reflexivity|]. simpl. intro H. rewrite one_of_cons, H. reflexivity. Qed.
+Lemma byte_yes x r p d : byte_ x (mkIn (x :: r) p d) = Ok x (mkIn r (p + 1)%N d).
+Proof. unfold byte_. apply one_of_yes. apply byte_eqb_refl. Qed.
+Lemma byte_no x r p d : stops (byte_eqb x) r -> byte_ x (mkIn r p d) = Bt err0 (mkIn r p d).
+Proof. apply one_of_no. Qed.
+
+Lemma lit_yes l r p d : lit l (mkIn (l ++ r) p d) = Ok l (after l r p d).
+Proof.
+  unfold lit. cbn [rest]. assert (H : strip_prefix l (l ++ r) = Some r) by (apply strip_prefix_spec; reflexivity).
+  rewrite H. rewrite advance_app. reflexivity.
+Qed.
+Lemma lit_no l r p d : strip_prefix l r = None -> lit l (mkIn r p d) = Bt err0 (mkIn r p d).
+Proof. intro H. unfold lit. cbn [rest]. rewrite H. reflexivity. Qed.
+
+Lemma take_while_yes m f a r p d : forallb f a = true -> stops f r -> m <= length a ->
+  take_while_mn m None f (mkIn (a ++ r) p d) = Ok a (after a r p d).
+Proof.
+  intros Ha Hr Hm. unfold take_while_mn. cbn [rest]. rewrite (span_while_exact f a r Ha Hr). cbn [fst].
+  destruct (Nat.ltb (length a) m) eqn:E; [apply Nat.ltb_lt in E; lia|].
+  rewrite advance_app. reflexivity.
+Qed.
+Lemma take_while1_no f r p d : stops f r -> take_while1 f (mkIn r p d) = Bt err0 (mkIn r p d).
+Proof.
+  intro Hr. unfold take_while1, take_while_mn. cbn [rest].
+  pose proof (span_while_exact f [] r eq_refl Hr) as H. cbn [app] in H. rewrite H. reflexivity.
+Qed.
+Lemma take_while0_none f r p d : stops f r -> take_while0 f (mkIn r p d) = Ok [] (mkIn r p d).
+Proof.
+  intro Hr. unfold take_while0. pose proof (take_while_yes 0 f [] r p d eq_refl Hr (Nat.le_refl _)) as H.
+  cbn [app] in H. rewrite H, after_nil. reflexivity.
+Qed.
+
+(* trivia.rs ws on an input that does not start with a blank *)
+Lemma ws_none r p d : stops (in_class WSCHAR) r -> ws (mkIn r p d) = Ok [] (mkIn r p d).
+Proof. intro H. unfold ws, unchecked_utf8. rewrite take_while0_none by exact H. reflexivity. Qed.
